@@ -23,6 +23,7 @@ table = "| seed | what it needs in order to manifest | reported by (quick tier) 
 table += "\n\n%d seeded changes, all reported by at least one quick check; %d check/seed pairs were missed when first run and led to the strengthenings described in the seeds' meta.json files and summarised below.\n" % (len(rows), missed)
 p = os.path.join(V, "DESIGN.md")
 s = open(p).read()
-s = re.sub(r"<!-- SEEDTABLE-BEGIN -->.*?<!-- SEEDTABLE-END -->", "<!-- SEEDTABLE-BEGIN -->\n" + table + "\n<!-- SEEDTABLE-END -->", s, flags=re.S)
+repl = "<!-- SEEDTABLE-BEGIN -->\n" + table + "\n<!-- SEEDTABLE-END -->"
+s = re.sub(r"<!-- SEEDTABLE-BEGIN -->.*?<!-- SEEDTABLE-END -->", lambda m: repl, s, flags=re.S)
 open(p, "w").write(s)
 print(len(rows), "seeds,", missed, "first-run misses")
